@@ -92,6 +92,10 @@ def run(chk):
             chk.ob('R1.3', "index_point is plain indexing: %s" % ex, False, getattr(ex, 'where', ''), 'index_point')
     # 'the two data points that bracket it': the comparison skeleton of the bracket lookup (shared with C11)
     from . import c11
+    chk.rule('R1.4', "every Interp1D entry point (interp_scalar / interp / interp_into / interp_array / interp_array_into, fast and general path) hands Linear the "
+                     "unmodified value of one query element and stores the result under that element's index")
+    from . import c09
+    chk.floor('R1.4', '1-D entry point runs that reach the strategy', c09.query_delivery(chk, lib, 'R1.4', 1), 7)
     c11.analyse(chk, lib, set_text=False)
     chk.explanation = ("The arithmetic kernel of the Linear strategy is extracted from the typed tree and normalised as a "
                        "rational function: it is identically the straight line through the two bracketing points, for every "
